@@ -141,6 +141,59 @@ func checkC16(c *Ctx) Meta {
 			}
 		}
 	}
+	// codec agreement per field: what the encoder applies must be undone by what the decoder applies
+	c.Rule("C16-CODEC", "for every wire field the decoder applies the inverse of the encoder's text codec (hex<->hex, uuid.String<->uuid.Parse, Hash.String/hex<->DecodeStringToHash, big.Int.Bytes<->SetBytes)", 20)
+	for _, pr := range wirePairs {
+		enc := c.Fn("fractal/protocol", "(*"+pr.X+").Msg")
+		dec := c.Fn("fractal/protocol", "(*"+pr.X+").SetMsg")
+		if enc == nil || dec == nil {
+			continue
+		}
+		encStores := map[string]*ssa.Store{}
+		for _, a := range fieldAccesses(enc) {
+			if a.Kind == "store" && a.Type == pkgProto+"."+pr.Msg {
+				encStores[a.Field] = a.In.(*ssa.Store)
+			}
+		}
+		decStores := map[string][]*ssa.Store{}
+		for _, a := range fieldAccesses(dec) {
+			if a.Kind == "store" && !strings.Contains(a.Type, ".Msg") {
+				decStores[a.Field] = append(decStores[a.Field], a.In.(*ssa.Store))
+			}
+		}
+		for _, f := range structFields(c, pkgProto, pr.Msg) {
+			st := encStores[f]
+			if st == nil || len(decStores[f]) == 0 {
+				continue
+			}
+			e := codecOps(backSlice(st.Val), true)
+			d := map[string]bool{}
+			// prefer the store(s) restored from this wire field alone (a composite such as the whole
+			// ProofOfSpace is restored from several wire fields and would mix their codecs)
+			var pure []*ssa.Store
+			for _, ds := range decStores[f] {
+				src := fieldNamesRead(backSlice(ds.Val), true)
+				if len(src) == 1 && src[f] {
+					pure = append(pure, ds)
+				}
+			}
+			if len(pure) == 0 {
+				pure = decStores[f]
+			}
+			for _, ds := range pure {
+				for k := range codecOps(backSlice(ds.Val), false) {
+					d[k] = true
+				}
+			}
+			key := pr.X + ":" + f
+			if why := codecMismatch(e, d); why != "" {
+				c.Bad("C16-CODEC", key, c.Pos(decStores[f][0].Pos()), "encoder applies "+fmt.Sprint(keysOf(e))+", decoder applies "+fmt.Sprint(keysOf(d))+": "+why)
+			} else {
+				c.OK("C16-CODEC", key, c.Pos(st.Pos()), "encoder "+fmt.Sprint(keysOf(e))+" / decoder "+fmt.Sprint(keysOf(d)))
+			}
+		}
+	}
+
 	// in-memory fields that never cross
 	for _, spec := range []struct {
 		x, typ, pkg string
@@ -232,7 +285,24 @@ func checkC16(c *Ctx) Meta {
 					}
 				}
 			}
-			if ok && okPol {
+			// the value compared must be the very value allocated (modulo lossless conversions): arithmetic
+			// on the peer-chosen size before the comparison can wrap around
+			okSame := true
+			for _, t := range tests {
+				bo := t.If.Cond.(*ssa.BinOp)
+				side := bo.X
+				if !backSlice(bo.X).hasCallTo(pkgConn + ".bytesToMsgSize") {
+					side = bo.Y
+				}
+				for _, m := range makes {
+					if !sameModuloLosslessConv(side, m.(*ssa.MakeSlice).Len) {
+						okSame = false
+					}
+				}
+			}
+			if ok && okPol && !okSame {
+				c.Bad("C16-FRAME", key, c.Pos(makes[0].Pos()), "the value compared with maxRecvMsgSize is not the size that is allocated but an arithmetic expression of it: for sizes near 2^32 the expression wraps, the test passes and about 4 GiB are allocated")
+			} else if ok && okPol {
 				c.OK("C16-FRAME", key, c.Pos(makes[0].Pos()), "make([]byte, size) only on the size <= maxRecvMsgSize edge")
 			} else {
 				c.Bad("C16-FRAME", key, c.Pos(makes[0].Pos()), "a peer-chosen frame size reaches make([]byte, size) without having been bounded by maxRecvMsgSize (memory exhaustion)")
@@ -601,4 +671,105 @@ func sameValue(a, b ssa.Value) bool {
 		}
 	}
 	return false
+}
+
+// codecOps: the text/byte codec operations applied on the way to a stored value.
+func codecOps(s *slice, enc bool) map[string]bool {
+	out := map[string]bool{}
+	for v := range s.vals {
+		cl, ok := v.(*ssa.Call)
+		if !ok {
+			continue
+		}
+		id := calleeID(cl)
+		switch {
+		case id == "encoding/hex.EncodeToString":
+			out["hex.encode"] = true
+		case id == "encoding/hex.DecodeString":
+			out["hex.decode"] = true
+		case id == "(github.com/google/uuid.UUID).String":
+			out["uuid.string"] = true
+		case id == "github.com/google/uuid.Parse":
+			out["uuid.parse"] = true
+		case strings.HasSuffix(id, "pocutil.Hash).String"):
+			out["hash.string"] = true
+		case strings.HasSuffix(id, "pocutil.DecodeStringToHash"):
+			out["hash.decode"] = true
+		case id == "(*math/big.Int).Bytes":
+			out["big.bytes"] = true
+		case id == "(*math/big.Int).SetBytes":
+			out["big.setbytes"] = true
+		case id == "(*math/big.Int).SetString", id == "(*math/big.Int).Text", id == "(*math/big.Int).String":
+			out["big.text:"+callName(cl)] = true
+		case strings.HasSuffix(id, "chiapos.NewG1ElementFromBytes"), strings.HasSuffix(id, "chiapos.NewG2ElementFromBytes"), strings.HasSuffix(id, "chiapos.NewPrivateKeyFromBytes"):
+			out["group.frombytes"] = true
+		case strings.HasSuffix(id, "Element).Bytes") && strings.Contains(id, "chiapos"):
+			out["group.bytes"] = true
+		case strings.HasPrefix(id, "strconv.") || strings.HasPrefix(id, "encoding/base64"):
+			out[id] = true
+		case strings.HasPrefix(id, pkgProto+".new") && !enc:
+			// helper decoders: look inside
+			if f := cl.Call.StaticCallee(); f != nil {
+				allInstrs(f, func(in ssa.Instruction) {
+					if c2, ok := in.(*ssa.Call); ok {
+						for k := range codecOps(&slice{vals: map[ssa.Value]bool{c2: true}}, false) {
+							out[k] = true
+						}
+					}
+				})
+			}
+		}
+	}
+	return out
+}
+
+// codecMismatch returns "" when decoder ops are the inverses of the encoder ops.
+func codecMismatch(e, d map[string]bool) string {
+	inverse := map[string][]string{
+		"hex.encode":  {"hex.decode", "hash.decode"},
+		"uuid.string": {"uuid.parse"},
+		"hash.string": {"hash.decode"},
+		"big.bytes":   {"big.setbytes"},
+		"group.bytes": {"group.frombytes"},
+	}
+	used := map[string]bool{}
+	for op := range e {
+		inv, known := inverse[op]
+		if !known {
+			return "encoder operation " + op + " has no registered inverse"
+		}
+		ok := false
+		for _, i := range inv {
+			if d[i] {
+				ok = true
+				used[i] = true
+			}
+		}
+		if !ok {
+			return "the decoder does not apply the inverse of " + op + " (one of " + fmt.Sprint(inv) + "): some encoded values (e.g. the empty string for zero) are rejected or decoded differently"
+		}
+	}
+	for op := range d {
+		if !used[op] {
+			return "decoder operation " + op + " has no counterpart in the encoder"
+		}
+	}
+	return ""
+}
+
+// sameModuloLosslessConv: a and b are the same SSA value up to conversions that cannot lose bits.
+func sameModuloLosslessConv(a, b ssa.Value) bool {
+	peel := func(v ssa.Value) ssa.Value {
+		for {
+			cv, ok := v.(*ssa.Convert)
+			if !ok {
+				return v
+			}
+			if lossyConversion(cv) != "" {
+				return v
+			}
+			v = cv.X
+		}
+	}
+	return peel(a) == peel(b)
 }
